@@ -212,10 +212,7 @@ public:
 		// The event must be obtained in its own statement: the evaluation order of function arguments is unspecified,
 		// so std::forward<Args>(args) may move a by-value argument away before getEvent reads it.
 		const Event event = GetEvent::getEvent(args...);
-		directDispatch(
-			event,
-			std::forward<Args>(args)...
-		);
+		doDirectDispatch(event, args...);
 	}
 
 	template <typename T>
@@ -227,15 +224,21 @@ public:
 
 		// See the comment in the other dispatch overload for why the event is obtained in its own statement.
 		const Event event = GetEvent::getEvent(std::forward<T>(first), args...);
-		directDispatch(
-			event,
-			std::forward<Args>(args)...
-		);
+		doDirectDispatch(event, args...);
 	}
 
 	// Bypass any getEvent policy. The first argument is the event type.
 	// Most used for internal purpose.
 	void directDispatch(const Event & e, Args ...args) const
+	{
+		doDirectDispatch(e, args...);
+	}
+
+protected:
+	// Takes the arguments of dispatch/directDispatch by reference: they are only moved on when the
+	// callback list is invoked, i.e. after the event was looked up. An event that refers to one of
+	// the arguments (a non-owning key made from a by-value std::string argument) stays valid until then.
+	void doDirectDispatch(const Event & e, typename std::add_lvalue_reference<Args>::type ...args) const
 	{
 		if(! internal_::ForEachMixins<MixinRoot, Mixins, DoMixinBeforeDispatch>::forEach(
 			this, typename std::add_lvalue_reference<Args>::type(args)...)) {
@@ -248,7 +251,6 @@ public:
 		}
 	}
 
-protected:
 	const CallbackList_ * doFindCallableList(const Event & e) const
 	{
 		return doFindCallableListHelper(this, e);
